@@ -15,6 +15,15 @@ def run(tier, wd):
     alphabet = ["c1", "d1", "a1", "b1", "e2", "get", "x", "-f", "-g", "--", "-h", "--help", "-v"] if q else \
                ["c1", "k1", "c2", "d1", "a1", "b1", "e1", "e2", "x", "-f", "-n=zz", "-g", "--", "-h", "--help", "-v", "--version"]
     trs, rows = tc.run_tree(rep, wd, binpath, alphabet, 3 if q else 4, ["continue", "exit", "panic"], "c14")
+    if not q:
+        # random command trees (depth <= 3, fan-out <= 3, aliases) with a shorter bound
+        rt = T.random_trees(rnd, 8)
+        trs2, rows2 = tc.run_tree(rep, wd, binpath, alphabet, 3, sorted(set(c["policy"] for c, _ in rows)), "%s-random" % PROP.lower(), trees=rt)
+        off = len(trs)
+        trs = trs + trs2
+        for c, r in rows2:
+            c["ti"] += off
+        rows = rows + rows2
     kinds = {}
     nontriv = unclaimed = 0
     for c, r in rows:
